@@ -1,6 +1,6 @@
 (* ProviderTarget.v — C12, last clause, under the kernel's timer discipline: whenever the provider serves (confirmed, no
    probe in flight) while the hostname object is registered, the SRV target is the currently registered host name. *)
-From QV Require Import Base Fields SrcFacts Msg SrcDecisions Cache CacheSpec CacheProofs Sim SimProofs Prober Hostname HostnameInv Provider ProviderProofs ProviderListener ProviderConverge.
+From QV Require Import Base Fields SrcFacts Msg SrcDecisions Cache CacheSpec CacheProofs Sim SimProofs Prober Hostname HostnameProofs HostnameInv Provider ProviderProofs ProviderListener ProviderConverge.
 From Coq Require Import ZifyBool ZifyNat ZifyN.
 Local Open Scope Z_scope.
 
@@ -128,7 +128,7 @@ Proof.
     + cbn [host_handle]. destruct (tid =? T_REG)%N eqn:TR.
       * apply N.eqb_eq in TR. subst tid. cbn [fst snd]. apply with_slot_starts; [left; reflexivity|].
         intros t (ms & H). apply in_app_iff in H as [H|[H|[]]].
-        -- destruct (bytes_eqb _ _); [destruct H|destruct H as [H|[]]; discriminate].
+        -- rewrite host_announce_old in H. destruct (bytes_eqb _ _); [destruct H|destruct H as [H|[]]; discriminate].
         -- injection H as <- _. right. right. auto.
       * unfold on_rebroadcast, assert_hostname. cbn [fst snd]. apply with_slot_starts; [left; reflexivity|].
         intros t (ms & [H|[H|[]]]); [discriminate|]. injection H as <- _. right. left. reflexivity.
@@ -329,7 +329,7 @@ Proof.
     + (* registration: the name is announced to the provider when it differs from the previous one *)
       cbn [comp_handle]. change (T_REG =? T_PROBER)%N with false. cbn [host_handle]. rewrite N.eqb_refl.
       set (h := cp_host c). set (h' := set_host h (h_name h) (h_prev h) true (h_suffix h)).
-      destruct (bytes_eqb (h_name h) (h_prev h)) eqn:E.
+      rewrite ?host_announce_old in *. destruct (bytes_eqb (h_name h) (h_prev h)) eqn:E.
       * apply bytes_eqb_eq in E. cbn [app fst snd with_hostname_slot]. unfold TargetOK. cbn [cp_prov cp_host]. intro Ex.
         destruct (IT Ex) as [T|T]; [left; exact T|right]. rewrite T. unfold last_registered. cbn [h' set_host h_reg h_name]. fold h.
         destruct (h_reg h); [reflexivity|congruence].
